@@ -18,6 +18,7 @@ mod eng_mutants;
 mod eng_sfloat;
 mod eng_devio;
 mod eng_floattext;
+mod eng_xml;
 
 #[global_allocator]
 static ALLOC: eng_mutants::Counting = eng_mutants::Counting;
@@ -65,6 +66,7 @@ fn exec_line(engine: &str, line: &str) -> String {
         "sfloat" => eng_sfloat::exec(line),
         "devio" => eng_devio::exec(line),
         "floattext" => eng_floattext::exec(line),
+        "xml" => eng_xml::exec(line),
         "devdbg" => eng_device::debug_read_fault(line),
         _ => "BADENGINE".into(),
     }
@@ -103,6 +105,7 @@ fn main() {
                 "sfloat" => eng_sfloat::generate(&mut sink, seed, thorough),
                 "devio" => eng_devio::generate(&mut sink, seed, thorough),
                 "floattext" => eng_floattext::generate(&mut sink, seed, thorough),
+                "xml" => eng_xml::generate(&mut sink, seed, thorough),
                 _ => {
                     eprintln!("unknown engine {engine}");
                     std::process::exit(2);
